@@ -10,6 +10,11 @@ CLAIMED = {
    note='Trusted: Lean kernel + {propext, Classical.choice, Quot.sound}; hand-written model of timestamp.rs checked by the correspondence run (sampling); wall clock injected via hook H1; theorems assume WallOk (multiple of 4 ms, before year 2159).',
    technique='Lean 4 proof (induction over call histories) + model/implementation correspondence check',
    ref='§8 C09'),
+ 'C10': dict(
+   text='Lean 4 theorems about the executable model of pack/accessors/Display/FromStr/archive: field and archive round trips for every valid triple, packed order = lexicographic (time, counter, node) for all u64, print-then-parse identity for every valid timestamp (own printer/parser lemmas by induction on digits), and totality of the parser (never panics) for every text. Tied to the code by differential execution over exhaustive boundary grids, random u64 and a malformed-text stream.',
+   note='Trusted: Lean kernel + standard axioms; hand-written model incl. Rust integer-parser semantics (parseUnsigned) and rkyv little-endian layout, both tied by the correspondence run; the SQLite column path reuses the same FromStr.',
+   technique='Lean 4 proof (round-trip / order / totality theorems) + model/implementation correspondence check',
+   ref='§8 C10'),
 }
 NA_REASON = 'check not built yet (work in progress; see DESIGN.md section 8)'
 
